@@ -345,5 +345,8 @@ pub fn run(p: &Params) -> Run {
     // the command-line program itself on 1-4 files in command-line order, all formats (oracle only)
     let mut crng = Rng::new(p.seed ^ 0xC12C11);
     crate::cli::batch_stream(&mut run, &mut crng, p.n(45, 600));
+    // the whole program in-process: any statement from raw text, every format, files vs their concatenation
+    let mut erng = Rng::new(p.seed ^ 0xC12e2e);
+    crate::e2e::concat_relation(&mut run, &mut erng, p.n(150, 2500));
     run
 }
